@@ -417,7 +417,7 @@ func c16(e *Env) {
 	}
 	cmd := exec.Command(bin, "C16", "--tier", "quick", "--seed", fmt.Sprint(e.Seed), "race-child")
 	cmd.Env = append(os.Environ(), "VERIF_CHILD=1", "GORACE=halt_on_error=0 log_path="+logBase+"/race")
-	out, err := cmd.CombinedOutput()
+	out, err := watchedOutput(r, cmd, e.Thorough, "race-build run")
 	races := 0
 	for _, f := range globLogs(logBase) {
 		b, _ := os.ReadFile(f)
